@@ -16,6 +16,8 @@ mod verif_mutex {
         if let Some(h) = holder {
             m.state.borrow_mut().holder = Some(TaskId::from(h));
             m.semaphore.verif_take_all();
+        } else {
+            m.semaphore.verif_take(0); // free: the permit queue exists and has room (see verif_take)
         }
         m
     }
